@@ -10,6 +10,7 @@ CONSTANTS
   Den = 21
   MaxSlots = 5
   GenN = 120
+  SubOrder = "sorted"
   UnionMode = "any"
   Mode = "gen"
 INIT GenInit
